@@ -63,9 +63,15 @@ def gen_pop_case(rng, crnc_bias=0.5, metrics=METRICS):
         kf = 2.0 ** rng.choice([-80, -40, 60]); kg = 2.0 ** rng.choice([-60, -20, 40])
         F = [[x * kf for x in r] for r in F]; G = [[x * kg for x in r] for r in G]; H = [[x * kg for x in r] for r in H]
         style = style + "-rescaled"
+    elif F and len(F[0]) >= 2 and rng.random() < 0.12:
+        # objectives in very different units: every column multiplied by its own power of two (column-wise comparisons are preserved exactly)
+        ks = [rng.choice([70, 64, 0, -60]) for _ in F[0]]
+        if len(set(ks)) == 1: ks[0] = 70 if ks[0] != 70 else 0
+        F = [[x * 2.0 ** k for x, k in zip(r, ks)] for r in F]
+        style = style + "-mixedunits"
     case = {"F": F, "G": G, "H": H, "n_survive": k, "cls": cls, "cf": cf, "style": style, "feasmode": feasmode, "seed": rng.randrange(2 ** 31)}
     if rng.random() < 0.25:
-        case["prime"] = rng.choice(["other", "same"])     # the operator object has served another (all-feasible) / the same population before
+        case["prime"] = rng.choice(["other", "same", "samefull"])     # the operator object has served another (all-feasible) / the same population before
     return case
 
 
@@ -178,11 +184,12 @@ def run_survival(case):
         pc = dict(case); pc["F"] = [list(r) for r in reversed(case["F"])][: max(1, n - 1)]
         pc["G"] = [[-1.0] * n_ieq for _ in pc["F"]] if n_ieq else case["G"]
         pc["H"] = [[0.0] * n_eq for _ in pc["F"]] if n_eq else case["H"]
-        if case["prime"] == "same":
+        if case["prime"] in ("same", "samefull"):
             pc = case
         pop0, prob0, _, _ = build_pop(pc)
         np.random.seed(case["seed"] + 1)
-        surv_op.do(prob0, pop0, n_survive=max(1, min(len(pop0), case["n_survive"] // 2 + 1)))
+        # "samefull": the same individuals were all kept a generation ago (nothing had to be removed then)
+        surv_op.do(prob0, pop0, n_survive=len(pop0) if case["prime"] == "samefull" else max(1, min(len(pop0), case["n_survive"] // 2 + 1)))
     np.random.seed(case["seed"])
     with OracleRec(surv_op) as rec:
         out = surv_op.do(prob, pop, n_survive=case["n_survive"])
